@@ -28,6 +28,14 @@ def hTar (j : Json) : Except String Json := do
         pure (stats.map fun s => ({ st := s, sha := ((snap.find? (·.st.path = s.path)).map (·.sha)).getD [] } : VEnt))
       else pure (kept.filterMap fun p => full.find? (·.st.path = p))
     | none => pure full
+  -- an optional second filter stacked on the first: it sees the entries (and the stats, incl. the hard-link naming) of the first stage
+  let view : List VEnt := match j.getObjVal? "sfilter2" with
+    | .ok f =>
+      let cfg2 : F.Cfg := { inc := P.parsePatterns ((getHexArr f "include").toOption.getD []),
+                            exc := P.parsePatterns ((getHexArr f "exclude").toOption.getD []) }
+      let kept2 := (F.filterWalk Fix.f9 cfg2 (view.map (·.st))).map (·.path)
+      kept2.filterMap fun p => view.find? (·.st.path = p)
+    | .error _ => view
   -- F24 (repaired): the hard-link reset is applied to the view; a promoted entry carries the bytes of its original link source
   let view : List VEnt := if Fix.f24 then
       let stats := F.hardlinkReset (view.map (·.st))
